@@ -392,6 +392,7 @@ type Contract struct {
 	Trusted  bool // assume-contract
 	Counts   string // ghost call counter name
 	Opaque   bool // never inline even if no ensures
+	Delegates string // closure [lit]: the literal's body is exactly `return <this callee>(its own parameters / captured variables)`
 	CallsOnly map[string][]string // package path -> the only functions of that package the body may call
 	InlineAtCallers bool
 	Body     SExpr  // pred / pure body
@@ -693,6 +694,8 @@ func ReadContractFile(path, pkgPath string) ([]*Contract, error) {
 			case "counts":
 				// every call of this function increments the ghost counter ghostCount("<name>")
 				tgt.Counts = strings.TrimSpace(rest)
+			case "delegates":
+				tgt.Delegates = strings.TrimSpace(rest)
 			case "calls-only":
 				// calls-only <package path>: F, G, H  - a frame on library configuration: of that
 				// package the body calls these functions and no others
